@@ -70,3 +70,33 @@ Theorem C13_page_constants_conform :
   GenConsts.go_dir_entryplus3Baggage = Agree.ENTRYPLUS_BAGGAGE /\ GenConsts.go_dir_DIRENTSZ = Abs.DIRENTSZ.
 Proof. exact (conj ConstsConform.readdirplus_baggage (proj1 ConstsConform.dirent_size)). Qed.
 Print Assumptions C13_page_constants_conform.
+
+(* DM (Model/DirModel.v, Proofs/DirProofs.v) — the directory layer of dir/dir.go and dir/dcache.go.  What the
+   enumeration theorems assume of consecutive directory states ("never shrinks, an entry that keeps existing stays
+   in its slot") is a theorem about that layer: every operation on a coherent directory (LookupName, guarded
+   AddName with or without room to grow, RemName, loss of the name cache) leaves it coherent and is a `step_ok`
+   step; and along any sequence of `step_ok` steps an enumeration that mixes READDIR and READDIRPLUS with any
+   limits lists an entry that exists throughout exactly once.  Tie: the extracted `step_ok_b` (sound for
+   `step_ok`) is run on the decoded slots of every directory before and after every RPC of the sequential runs. *)
+From V Require Model.Lib Model.DirModel Proofs.DirProofs.
+Theorem C13_directory_operations_keep_slots : forall (st : DirModel.dstate) (o : DirProofs.dop),
+  DirProofs.coh st ->
+  DirProofs.coh (DirProofs.dstep st o) /\ DirProofs.step_ok (DirModel.d_slots st) (DirModel.d_slots (DirProofs.dstep st o)).
+Proof. exact DirProofs.dstep_ok. Qed.
+Print Assumptions C13_directory_operations_keep_slots.
+
+Theorem C13_step_check_sound : forall a b, DirModel.step_ok_b a b = true -> DirProofs.step_ok a b.
+Proof. exact DirProofs.step_ok_b_sound. Qed.
+Print Assumptions C13_step_check_sound.
+
+Theorem C13_listed_once_from_directory_steps :
+  forall (cost dcost pcost : Lib.name * N -> N) (st : nat -> list (option (Lib.name * N))) (tm : nat -> nat) (lims : nat -> limits),
+  (forall t, DirProofs.step_ok (st t) (st (S t))) ->
+  (forall k, tm k <= tm (S k)) ->
+  forall fuel i e, DirProofs.at_ (st (tm 0)) i e ->
+  (forall t, tm 0 <= t -> exists j, DirProofs.at_ (st t) j e) ->
+  snd (sv_enum (Lib.name * N) cost dcost pcost (fun k => st (tm k)) lims fuel 0 0) = true ->
+  count_idx (Lib.name * N) i (concat (fst (sv_enum (Lib.name * N) cost dcost pcost (fun k => st (tm k)) lims fuel 0 0))) = 1 /\
+  In (i, e) (concat (fst (sv_enum (Lib.name * N) cost dcost pcost (fun k => st (tm k)) lims fuel 0 0))).
+Proof. exact DirProofs.listed_once_from_dir_steps. Qed.
+Print Assumptions C13_listed_once_from_directory_steps.
